@@ -36,4 +36,8 @@ TABLE = {
             "DESIGN.md 3/C14"),
 }
 _PENDING = "check not built yet in this round (design in DESIGN.md section 3); will be claimed once its driver is committed"
+TABLE["C15"] = ("E1", E1N,
+    "Explicit-state exploration of the real run_scheduler_loop() on a hand-stepped asyncio loop whose virtual clock is also the wall clock (run.datetime patched): start instants x schedule sets x sources (scripted list sources and the real LabelScheduleSource) x send latencies x dynamic add/remove x every subset of <=2 failing get_schedules()/kick() calls; the explorer enumerates every order of equal-deadline timers (and both in one iteration); oracle on the event log at the horizon: polls exactly at start and every minute boundary, one send per matching cron minute (independent matcher), one send per one-shot within [T, T+1 s]. One known finding (D8) classified by a predicate on the log.",
+    "Trusted: asyncio on the stepped loop; timers fire exactly at their deadline and wall clock == loop clock (drift and early wake-ups are out of scope); local zone UTC; horizon 3/5 virtual minutes.",
+    "DESIGN.md 2.1, 3/C15")
 NOT_YET = {f"C{i:02d}": _PENDING for i in range(1, 21)}
